@@ -42,6 +42,7 @@ type Session struct {
 	Words        []string      `json:"words,omitempty"`     // extra dictionary words (literals new relative to the baseline tree)
 	SimProcs     int           `json:"sim_procs,omitempty"` // value runtime.GOMAXPROCS(0)/NumCPU() report to the library (VERIF_SIM_PROCS)
 	SimEpoch     int64         `json:"sim_epoch,omitempty"` // simulated wall-clock ns at step 0 of the process (VERIF_SIM_EPOCH)
+	StepNS       int64         `json:"step_ns,omitempty"`   // simulated ns per step (VERIF_SIM_STEPNS)
 }
 
 type ECall struct {
@@ -266,6 +267,10 @@ func (w *worker) runSession() {
 		w.modeSolo()
 	case "soak":
 		w.modeSoak()
+	case "coldfirst":
+		w.modeColdFirst()
+	case "chain":
+		w.modeChain()
 	case "rand":
 		for i := 0; i < s.Runs && !w.stop; i++ {
 			seed := simrt.Mix(s.Seed, uint64(s.Worker), uint64(i))
@@ -808,6 +813,37 @@ func (w *worker) modeSoak() {
 	}
 	hot := pos[(w.ses.Worker/2)%len(pos)]
 	const perRun = 5000
+	// burst phase: every positive probe of the hot API 3000 times in a row (token
+	// buckets, per-key counters and adaptive fast paths react to bursts)
+	if w.ses.Worker < 8 {
+		// candidates: positive probes and literals of the hot API, shared out
+		// between the four burst workers of that API
+		var cand []int32
+		for i, f := range w.c.Flags {
+			if f&(common.FProbe|common.FLiteral) != 0 && len(w.c.In[i]) <= 64 {
+				if ref := w.c.Ref[hotAPI][i]; len(ref) > 0 && ref[0] == 'T' {
+					cand = append(cand, int32(i))
+				}
+			}
+		}
+		var mine []int32
+		for k, p := range cand {
+			if k%4 == (w.ses.Worker/2)%4 {
+				mine = append(mine, p)
+			}
+		}
+		for _, p := range mine {
+			if w.stop {
+				break
+			}
+			calls := make([]simrt.Call, 0, 1500)
+			for k := 0; k < 1500; k++ {
+				calls = append(calls, simrt.Call{API: hotAPI, Idx: p, Input: w.c.In[p]})
+			}
+			spec := &simrt.RunSpec{Seed: uint64(p), Tasks: [][]simrt.Call{calls}, Policy: simrt.Policy{Kind: "seq", PoolMode: "lifo"}, Est: 1500*(w.c.Steps[hotAPI][p]+1) + 64}
+			w.execRun(spec, nil, false)
+		}
+	}
 	done := 0
 	cur := 0
 	for done < w.ses.Runs && !w.stop {
@@ -831,5 +867,103 @@ func (w *worker) modeSoak() {
 		}
 		spec := &simrt.RunSpec{Seed: uint64(done), Tasks: [][]simrt.Call{calls}, Policy: simrt.Policy{Kind: "seq", PoolMode: "lifo"}, Est: est + 64}
 		w.execRun(spec, nil, false)
+	}
+}
+
+// ColdFirstList: inputs worth being the very FIRST call of a process: every
+// input on which the current tree panics, then long inputs, then a spread of others.
+func ColdFirstList(c *common.Corpus) []int32 {
+	var out []int32
+	seen := map[int32]bool{}
+	add := func(i int32) {
+		if !seen[i] {
+			seen[i] = true
+			out = append(out, i)
+		}
+	}
+	for i := range c.In {
+		if (len(c.Ref[0][i]) > 0 && c.Ref[0][i][0] == 'P') || (len(c.Ref[1][i]) > 0 && c.Ref[1][i][0] == 'P') {
+			add(int32(i))
+		}
+		if len(out) >= 24 {
+			break
+		}
+	}
+	n := 0
+	for i, f := range c.Flags {
+		if f&common.FLong != 0 && n < 8 {
+			add(int32(i))
+			n++
+		}
+	}
+	for i := 0; i < c.Len() && len(out) < 48; i += 1 + c.Len()/17 {
+		add(int32(i))
+	}
+	return out
+}
+
+// modeColdFirst: the process's very first library call is input From of the
+// cold-first list (on API Runs&1); then every probe is asked on both APIs.
+// A table that is built lazily inside a call that panics, or that the first
+// caller leaves half-initialised, shows on the ordinary calls that follow.
+func (w *worker) modeColdFirst() {
+	list := ColdFirstList(w.c)
+	if w.ses.From >= len(list) {
+		return
+	}
+	_, probes := HistLists(w.c)
+	x := list[w.ses.From]
+	api := uint8(w.ses.Runs & 1)
+	calls := []simrt.Call{{API: api, Idx: x, Input: w.c.In[x]}}
+	est := w.c.Steps[api][x] + 1
+	for _, a := range []uint8{api, 1 - api} {
+		for _, p := range probes {
+			calls = append(calls, simrt.Call{API: a, Idx: p, Input: w.c.In[p]})
+			est += w.c.Steps[a][p] + 1
+		}
+	}
+	spec := &simrt.RunSpec{Seed: uint64(w.ses.From), Tasks: [][]simrt.Call{calls}, Policy: simrt.Policy{Kind: "seq", PoolMode: "lifo"}, Est: est + 64}
+	w.execRun(spec, nil, true)
+}
+
+// modeChain: one caller walks through every medium-sized corpus input (24 to
+// 400 bytes: fixtures, literals, splices, mutated) in a seeded order on one
+// API, under a seeded policy with GC and timer faults. Chains of consecutive
+// calls that are all "interesting" (contain quotes, are positive, cross small
+// thresholds) are what slot-reuse and late-write bugs of helper goroutines need.
+// Worker index selects API, order and policy; From/To bound the chain length.
+func (w *worker) modeChain() {
+	var pool []int32
+	for i, in := range w.c.In {
+		if len(in) >= 24 && len(in) <= 400 && w.c.Flags[i]&(common.FFixture|common.FLiteral|common.FMutated|common.FGrown) != 0 {
+			pool = append(pool, int32(i))
+		}
+	}
+	if len(pool) == 0 {
+		return
+	}
+	r := simrt.NewRNG(simrt.Mix(w.ses.Seed, uint64(w.ses.Worker), 0xc4a1))
+	for i := len(pool) - 1; i > 0; i-- {
+		j := r.Intn(i + 1)
+		pool[i], pool[j] = pool[j], pool[i]
+	}
+	api := uint8(w.ses.Worker & 1)
+	pols := []simrt.Policy{{Kind: "seq"}, {Kind: "walk", P: 0.02}, {Kind: "pct", Depth: 4}, {Kind: "rr", Quantum: 5}, {Kind: "walk", P: 0.2}, {Kind: "sync", P: 0.3}}
+	const perRun = 400
+	for a := 0; a < len(pool) && a < w.ses.To && !w.stop; a += perRun {
+		b := a + perRun
+		if b > len(pool) {
+			b = len(pool)
+		}
+		var calls []simrt.Call
+		var est int64
+		for _, i := range pool[a:b] {
+			calls = append(calls, simrt.Call{API: api, Idx: i, Input: w.c.In[i]})
+			est += w.c.Steps[api][i] + 1
+		}
+		pol := pols[(w.ses.Worker/2+a/perRun)%len(pols)]
+		pol.PoolMode, pol.GCP, pol.TimerP = "lifo", 0.002, 0.002
+		spec := &simrt.RunSpec{Seed: simrt.Mix(w.ses.Seed, uint64(w.ses.Worker), uint64(a)), Tasks: [][]simrt.Call{calls}, Policy: pol, Est: est + 64}
+		w.execRun(spec, nil, a == 0)
 	}
 }
